@@ -440,7 +440,8 @@ func main() {
 		Real:  []string{"tsp.LIB", "text/tabwriter", "fmt"},
 		Stubs: []string{"io.Writer (simulated disk: records bytes, fails on schedule)", "weights callback (records its arguments)"},
 		Plan: func(tier string) driver.Plan {
-			p := driver.Plan{Enum: len(cases(tier)), Random: 60000, Exhaustive: true, WallLimit: 5 * time.Minute}
+			p := driver.Plan{Enum: len(cases(tier)), Random: 60000, Exhaustive: true, WallLimit: 5 * time.Minute,
+				ExhaustiveScope: "for every listed (n, weight family) with n <= 130: every Write position x every failure kind; for the very large n (>= 255) the positions are sampled (first/last 20 + ~300 evenly spaced), which is not part of the exhaustive claim"}
 			if tier == "thorough" {
 				p.Random = 2000000
 				p.WallLimit = 20 * time.Minute
